@@ -7,6 +7,7 @@ from vsc.model.variable_bound_propagator import VariableBoundPropagator
 from vsc.model.variable_bound_model import VariableBoundModel
 from vsc.model.expr_in_model import ExprInModel
 from vsc.model.expr_range_model import ExprRangeModel
+from vsc.model.variable_bound_ctx_expr import VariableBoundCtxExpr
 from vsc.visitors.model_pretty_printer import ModelPrettyPrinter
 
 class VariableBoundInPropagator(VariableBoundPropagator):
@@ -15,9 +16,23 @@ class VariableBoundInPropagator(VariableBoundPropagator):
     
     def __init__(self,
                  target : VariableBoundModel,
-                 in_e : ExprInModel):
+                 in_e : ExprInModel,
+                 lhs_e = None):
         super().__init__(target)
         self.in_e = in_e
+        self.lhs_e = lhs_e
+        
+    def _bound(self, e):
+        """Value of a range bound as the solver compares it with the variable"""
+        if self.lhs_e is None:
+            return int(e.val())
+        ctx_signed = self.lhs_e.is_signed() and e.is_signed()
+        if self.lhs_e.is_signed() and not ctx_signed:
+            return None
+        return VariableBoundCtxExpr(
+            e, 
+            max(self.lhs_e.width(), e.width()), 
+            ctx_signed).val()
         
     def propagate(self):
         should_propagate = False
@@ -28,8 +43,16 @@ class VariableBoundInPropagator(VariableBoundPropagator):
         dom_i = 0
 
         # This should really be taken care of elsewhere...        
-        in_r_l_t = list(map(lambda e:[int(e.lhs.val()),int(e.rhs.val())] if isinstance(e, ExprRangeModel) 
-                          else [int(e.val()),int(e.val())], self.in_e.rl))
+        in_r_l_t = []
+        for e in self.in_e.rl:
+            if isinstance(e, ExprRangeModel):
+                r = [self._bound(e.lhs), self._bound(e.rhs)]
+            else:
+                r = [self._bound(e), self._bound(e)]
+            if r[0] is None or r[1] is None:
+                # Don't know what the solver makes of this element
+                return
+            in_r_l_t.append([int(r[0]), int(r[1])])
         in_r_l_t.sort(key=lambda e:e[0])
         in_r_l = []
 #        in_r_l = in_r_l_t
